@@ -200,3 +200,57 @@ Qed.
 Theorem nobody_woken_twice ops :
   NoDup (all_subs ops) -> NoDup (scheduled (run ops) ++ waiting (run ops)).
 Proof. intros H. eapply subseq_NoDup; [apply scheduled_in_subscription_order|exact H]. Qed.
+
+(** nobody is lost: every subscriber of a history still waits, or has been scheduled, or withdrew itself *)
+Definition unsubs_of (ops : list op) : list sub :=
+  flat_map (fun o => match o with Unsub w t => [(w, t)] | _ => [] end) ops.
+Definition accounted (s : wl) (p : sub) : Prop := In p (waiting s) \/ In p (scheduled s).
+
+Lemma sub_eqb_eq a b : sub_eqb a b = true -> a = b.
+Proof.
+  unfold sub_eqb. destruct a as [a1 a2], b as [b1 b2]; cbn. intros H.
+  apply andb_prop in H. destruct H as [H1 H2]. apply Nat.eqb_eq in H1, H2. subst. reflexivity.
+Qed.
+
+Lemma remove_first_other x l : forall l' p, remove_first x l = Some l' -> In p l -> p = x \/ In p l'.
+Proof.
+  induction l as [|y l IH]; intros l' p H Hin; cbn in H; [discriminate|].
+  destruct (sub_eqb x y) eqn:E.
+  - inversion H; subst. apply sub_eqb_eq in E. subst. destruct Hin as [->|Hin]; auto.
+  - destruct (remove_first x l) as [r|] eqn:Er; cbn in H; [|discriminate]. inversion H; subst.
+    destruct Hin as [->|Hin]; [right; left; reflexivity|].
+    destruct (IH r p eq_refl Hin) as [->|Hr]; [left; reflexivity|right; right; exact Hr].
+Qed.
+
+Lemma step_keeps s o p : accounted s p -> accounted (step s o) p \/ o = Unsub (fst p) (snd p).
+Proof.
+  unfold accounted. intros H. destruct o as [w t|w t| |].
+  - left. cbn. rewrite in_app_iff. tauto.
+  - cbn. destruct (is_scheduled s t); [left; cbn; tauto|].
+    destruct (remove_first (w, t) (waiting s)) as [l|] eqn:E; [|left; cbn; tauto]. cbn.
+    destruct H as [H|H]; [|left; tauto].
+    destruct (remove_first_other _ _ _ _ E H) as [->|Hl]; [right; reflexivity|left; tauto].
+  - left. cbn. destruct (waiting s) as [|q r] eqn:E; cbn; [destruct H as [[]|H]; tauto|].
+    rewrite in_app_iff. cbn. destruct H as [[<-|H]|H]; tauto.
+  - left. cbn. rewrite in_app_iff. tauto.
+Qed.
+
+Theorem nobody_is_lost ops p : In p (all_subs ops) -> accounted (run ops) p \/ In p (unsubs_of ops).
+Proof.
+  unfold run.
+  assert (G : forall ops s, accounted s p \/ In p (all_subs ops) ->
+                            accounted (fold_left step ops s) p \/ In p (unsubs_of ops)).
+  { clear ops. induction ops as [|o r IH]; intros s H; cbn.
+    - destruct H as [H|H]; [left; exact H|destruct H].
+    - assert (K : accounted (step s o) p \/ In p (all_subs r) \/ o = Unsub (fst p) (snd p)).
+      { destruct H as [H|H].
+        - destruct (step_keeps s o p H) as [H1|H1]; auto.
+        - unfold all_subs in H. cbn in H. apply in_app_iff in H. destruct H as [H|H]; [|auto].
+          destruct o as [w t|w t| |]; cbn in H; try contradiction.
+          destruct H as [<-|[]]. left. unfold accounted. cbn. rewrite in_app_iff. cbn. tauto. }
+      destruct K as [K|[K| ->]].
+      + destruct (IH _ (or_introl K)) as [R|R]; [left; exact R|right; apply in_app_iff; right; exact R].
+      + destruct (IH (step s o) (or_intror K)) as [R|R]; [left; exact R|right; apply in_app_iff; right; exact R].
+      + right. cbn. left. destruct p; reflexivity. }
+  intros H. apply (G ops init). right. exact H.
+Qed.
